@@ -73,7 +73,9 @@ func (pnf *PageNumberFinder) FindPagination(root *html.Node, pageURL *nurl.URL) 
 	url.User = nil // the parameter detector drops the user info as well
 	url.Path = strings.TrimSuffix(url.Path, "/")
 	url.RawPath = url.Path
-	strPageURL := stringutil.UnescapedString(&url)
+	// The page infos hold escaped URLs (URL.String()), so the page URL they
+	// are compared with must be in the same form.
+	strPageURL := url.String()
 
 	paramInfo := pnf.FindOutlink(root, &url)
 	if paramInfo.Type != info.PageNumber {
